@@ -202,6 +202,47 @@ static void one_point(int e, int state, int ck, int partner_is_orig, int verbose
         if (!(t->orig_aborts & (1u << state)) && ab) violation(rp, "%s on the ORIGINAL %s %s object (a stray copy exists elsewhere) aborted", t->fn, statename[t->kx][state], kindname[t->kx]);
     }
 }
+/* (3) the converse for destinations: the functions that (re)initialise an object -- *_init, guarded set, and the destination of guarded copy -- are
+ * what a program uses on storage that holds no object yet (zero-filled, stale bytes, or the bytes of some object that was copied there).  They must not
+ * abort whatever the storage holds, and the object they leave behind works. */
+enum { F_G_INIT, F_G_SET, F_G_COPY_NULL, F_G_COPY_PTR, F_U_INIT, F_S_INIT, F_W_INIT, F_A_INIT, NFRESH };
+static const char *freshname[] = { "cstl_guarded_ptr_init", "cstl_guarded_ptr_set", "cstl_guarded_ptr_copy(dst, src holding NULL)", "cstl_guarded_ptr_copy(dst, src holding a pointer)", "cstl_unique_ptr_init", "cstl_shared_ptr_init", "cstl_weak_ptr_init", "cstl_array_init" };
+static const int freshkind[] = { KG, KG, KG, KG, KU, KS, KW, KA };
+static const char *fillname[] = { "zero-filled storage", "storage filled with 0xA5", "storage filled with 0xFF", "storage holding the bytes of a live object of the same type" };
+static unsigned long points_fresh;
+static int fresh_fn, fresh_bad; static void *fresh_expect;
+static void fresh_body(void)
+{
+    obj_t *x = &STRAY;
+    switch (fresh_fn) {
+    case F_G_INIT: cstl_guarded_ptr_init(&x->g); fresh_bad = cstl_guarded_ptr_get(&x->g) != NULL; break;
+    case F_G_SET: cstl_guarded_ptr_set(&x->g, &target_word); fresh_bad = cstl_guarded_ptr_get(&x->g) != (void *)&target_word; break;
+    case F_G_COPY_NULL: case F_G_COPY_PTR: cstl_guarded_ptr_copy(&x->g, &OTHER.g); fresh_bad = cstl_guarded_ptr_get(&x->g) != fresh_expect || cstl_guarded_ptr_get(&OTHER.g) != fresh_expect; break;
+    case F_U_INIT: cstl_unique_ptr_init(&x->u); fresh_bad = cstl_unique_ptr_get(&x->u) != NULL; cstl_unique_ptr_alloc(&x->u, 8, NULL, NULL); fresh_bad |= cstl_unique_ptr_get(&x->u) == NULL; cstl_unique_ptr_reset(&x->u); break;
+    case F_S_INIT: cstl_shared_ptr_init(&x->s); fresh_bad = cstl_shared_ptr_get(&x->s) != NULL; cstl_shared_ptr_alloc(&x->s, 8, NULL); fresh_bad |= cstl_shared_ptr_get(&x->s) == NULL; cstl_shared_ptr_reset(&x->s); break;
+    case F_W_INIT: cstl_weak_ptr_init(&x->w); cstl_shared_ptr_alloc(&HELP1.s, 8, NULL); cstl_weak_ptr_from(&x->w, &HELP1.s); cstl_weak_ptr_reset(&x->w); cstl_shared_ptr_reset(&HELP1.s); break;
+    default: cstl_array_init(&x->a); fresh_bad = cstl_array_size(&x->a) != 0; cstl_array_alloc(&x->a, 3, 4); fresh_bad |= cstl_array_size(&x->a) != 3 || cstl_array_data(&x->a) == NULL; cstl_array_reset(&x->a); break;
+    }
+}
+static void fresh_point(int fn, int fill, int verbose)
+{
+    int ab, kind = freshkind[fn]; char rp[64];
+    snprintf(rp, sizeof rp, "f:%d:%d", fn, fill);
+    if (prog_buf) snprintf(prog_buf, 4000, "R %s\n", rp);
+    shim_reset(); shim_in_lib++;
+    init_obj(KS, &HELP1); init_obj(KG, &OTHER);
+    if (fn == F_G_COPY_PTR) cstl_guarded_ptr_set(&OTHER.g, &target_word);
+    fresh_expect = fn == F_G_COPY_PTR ? (void *)&target_word : NULL;
+    if (fill == 3) { make(kind, 1, &ORIG); memset(&STRAY, 0x5C, sizeof STRAY); memcpy(&STRAY, &ORIG, kindsize[kind]); }
+    else memset(&STRAY, fill == 0 ? 0x00 : fill == 1 ? 0xA5 : 0xFF, sizeof STRAY);
+    fresh_fn = fn; fresh_bad = 0;
+    SHIM_CALL(ab, fresh_body());
+    shim_in_lib = 0;
+    points_fresh++;
+    if (verbose) printf("%s on %s, then ordinary use of the object: %s\n", freshname[fn], fillname[fill], ab == 1 ? "abort()" : ab ? "assertion" : fresh_bad ? "returned, object wrong" : "returned");
+    if (ab) violation(rp, "%s applied to %s (no object there yet), followed by ordinary use of the new object, %s: these functions (re)initialise their destination whatever it holds", freshname[fn], fillname[fill], ab == 1 ? "aborted" : "hit an assertion");
+    else if (fresh_bad) violation(rp, "%s applied to %s left an object that does not hold what it should", freshname[fn], fillname[fill]);
+}
 static double now(void) { struct timespec ts; clock_gettime(CLOCK_MONOTONIC, &ts); return ts.tv_sec + ts.tv_nsec * 1e-9; }
 
 int main(int argc, char **argv)
@@ -221,13 +262,20 @@ int main(int argc, char **argv)
     }
     if (!prop || strcmp(prop, "C20")) { fprintf(stderr, "stray: property not served\n"); return 2; }
     if (replay) {
-        int po = 0;
+        int po = 0, ffn, ffill;
+        if (sscanf(replay, "f:%d:%d", &ffn, &ffill) == 2) {
+            if (ffn < 0 || ffn >= NFRESH || ffill < 0 || ffill > 3) return 4;
+            fresh_point(ffn, ffill, 1);
+            if (nviol) { printf("VIOLATED: %s\n", violmsg[0]); return 1; }
+            printf("no violation\n"); return 0;
+        }
         if (sscanf(replay, "%d:%d:%d:%d:%d", &e, &st, &ck, &po, &g_ostate) < 3 || e < 0 || e >= NENT || g_ostate < 0 || g_ostate > 2) return 4;
         one_point(e, st, ck, po, 1);
         if (nviol) { printf("VIOLATED: %s\n", violmsg[0]); return 1; }
         printf("no violation\n"); return 0;
     }
     for (e = 0; e < NENT && nviol < 6; e++) for (st = 0; st < nstates[TABLE[e].kx] && nviol < 6; st++) for (ck = 0; ck < NCOPY && nviol < 6; ck++) { g_ostate = 1; one_point(e, st, ck, 0, 0); one_point(e, st, ck, 1, 0); g_ostate = 0; one_point(e, st, ck, 0, 0); g_ostate = 2; one_point(e, st, ck, 0, 0); g_ostate = 1; }
+    { int fn, fill; for (fn = 0; fn < NFRESH && nviol < 6; fn++) for (fill = 0; fill < 4 && nviol < 6; fill++) fresh_point(fn, fill, 0); }
     /* coverage cross-check against the declarations found by gcc -aux-info */
     for (i = 0; declared_fns[i]; i++) {
         int found = 0, k;
@@ -236,9 +284,9 @@ int main(int argc, char **argv)
         if (!found && strlen(gaps) < sizeof gaps - 80) { sprintf(gaps + strlen(gaps), "%s%s", ngaps ? " " : "", declared_fns[i]); ngaps++; }
     }
     printf("{\"world\":\"stray\",\"config\":0,\"config_desc\":\"%d (entry point, argument position) pairs x object states x {struct assignment, memcpy, relocation}\",\"property\":\"C20\",\"evaluations\":%lu,\"nontrivial_states\":%lu,"
-           "\"exhaustive\":%s,\"closure\":%s,\"wall_s\":%.3f,\"counters\":{\"calls_on_stray_copies\":%lu,\"calls_on_the_original\":%lu,\"declared_entry_points_seen_by_aux_info\":%d,\"declared_entry_points_not_in_the_table\":%d},"
+           "\"exhaustive\":%s,\"closure\":%s,\"wall_s\":%.3f,\"counters\":{\"calls_on_stray_copies\":%lu,\"calls_on_the_original\":%lu,\"initialising_calls_on_storage_without_an_object\":%lu,\"declared_entry_points_seen_by_aux_info\":%d,\"declared_entry_points_not_in_the_table\":%d},"
            "\"detail\":\"declared but not covered: [%s]\",\"samples\":[\"cstl_weak_ptr_lock(sp = stray memcpy copy of a co-owned shared pointer) must abort; the same call on the original must return\",\"cstl_array_slice(s = relocated copy of a slice) must abort\"],\"violations\":[",
-           NENT, points + points_orig, points, nviol ? "false" : "true", nviol ? "false" : "true", now() - t0, points, points_orig, i, ngaps, gaps);
+           NENT, points + points_orig + points_fresh, points, nviol ? "false" : "true", nviol ? "false" : "true", now() - t0, points, points_orig, points_fresh, i, ngaps, gaps);
     for (i = 0; i < nviol; i++) printf("%s{\"replay\":\"%s\",\"ops\":\"%s\",\"message\":\"%s\"}", i ? "," : "", viols[i], viols[i], violmsg[i]);
     printf("]}\n");
     return nviol ? 1 : 0;
